@@ -181,3 +181,99 @@ Proof.
     - intros e Hh. destruct e; [|apply Rent_refl]. eapply Rent_trans; [apply (proj1 (Rent_drop (dfuel Hh))) | apply Rent_kill_flag]. }
   exact R.
 Qed.
+
+(* ---------- the OUTPUT queues of every command are left alone or emptied by wakes and drop glue ---------- *)
+Definition Rout (H H' : heap) : Prop := forall c,
+  (c_evs (gcmd c H') = c_evs (gcmd c H) /\ c_eff (gcmd c H') = c_eff (gcmd c H)) \/ (c_evs (gcmd c H') = [] /\ c_eff (gcmd c H') = []).
+Lemma Rout_refl H : Rout H H. Proof. intros c; left; split; reflexivity. Qed.
+Lemma Rout_trans a b c : Rout a b -> Rout b c -> Rout a c.
+Proof. intros A B x. destruct (B x) as [(E1 & E2)|E]; [rewrite E1, E2; apply A | right; exact E]. Qed.
+Lemma Rout_same H H' : cmds H' = cmds H -> Rout H H'. Proof. intros E c. unfold gcmd. rewrite E. left; split; reflexivity. Qed.
+Lemma Rout_ucmd c f H : (forall cm, (c_evs (f cm) = c_evs cm /\ c_eff (f cm) = c_eff cm) \/ (c_evs (f cm) = [] /\ c_eff (f cm) = [])) -> Rout H (ucmd c f H).
+Proof.
+  intros Hf c'. destruct (Nat.eq_dec c c') as [->|Hn].
+  - rewrite gcmd_ucmd_same. apply Hf.
+  - rewrite gcmd_ucmd_other by exact Hn. left; split; reflexivity.
+Qed.
+Lemma Rout_fold {A} (g : heap -> A -> heap) (l : list A) : (forall x H, Rout H (g H x)) -> forall H, Rout H (fold_left g l H).
+Proof. intros Hg. induction l as [|x l IH]; intros H; simpl; [apply Rout_refl|]. eapply Rout_trans; [apply Hg | apply IH]. Qed.
+Ltac keep_out := apply Rout_ucmd; intros cm; left; destruct cm; split; reflexivity.
+
+Lemma Rout_wake : forall f w H, Rout H (wake f w H).
+Proof.
+  induction f as [|f IH]; intros w H; unfold wake; fold wake;
+    (destruct w as [c s g|q]; [|apply Rout_same; reflexivity]);
+    set (H1 := if c_alive (gcmd c H) then ucmd c (fun cm => set_ready (c_ready cm ++ [s]) cm) H else H);
+    (assert (S1 : Rout H H1) by (subst H1; destruct (c_alive (gcmd c H)); [keep_out | apply Rout_refl]));
+    (assert (S2 : Rout H (set_woken g H1)) by (eapply Rout_trans; [exact S1 | apply Rout_same; reflexivity]));
+    destruct (c_atomic (gcmd c (set_woken g H1))) as [w'|]; try exact S2;
+    try (eapply Rout_trans; [exact S2 | apply Rout_same; reflexivity]).
+  eapply Rout_trans; [exact S2|]. eapply Rout_trans; [|apply IH]. keep_out.
+Qed.
+Lemma Rout_uch c f H : Rout H (uch c f H). Proof. apply Rout_same; reflexivity. Qed.
+Lemma Rout_utf u f H : Rout H (utf u f H). Proof. apply Rout_same; reflexivity. Qed.
+Lemma Rout_wake_cell ch H : Rout H (wake_cell ch H).
+Proof. unfold wake_cell. destruct (ch_wk (gch ch H)); [|apply Rout_refl]. eapply Rout_trans; [apply Rout_uch | apply Rout_wake]. Qed.
+Lemma Rout_chan_drop_tx ch H : Rout H (chan_drop_tx ch H).
+Proof. unfold chan_drop_tx. destruct (ch_tx (gch ch H)); [|apply Rout_refl]. eapply Rout_trans; [apply Rout_uch | apply Rout_wake_cell]. Qed.
+Lemma Rout_chan_drop_rx ch H : Rout H (chan_drop_rx ch H). Proof. apply Rout_uch. Qed.
+Lemma Rout_drop_req e H : Rout H (drop_req e H).
+Proof. unfold drop_req. destruct (e_res e); [apply Rout_refl | apply Rout_chan_drop_tx | apply Rout_chan_drop_tx | apply Rout_refl]. Qed.
+Lemma Rout_kill_flag u H : Rout H (kill_flag u H). Proof. apply Rout_utf. Qed.
+Lemma Rout_sub_drop q H : Rout H (sub_drop q H).
+Proof. unfold sub_drop. destruct q as [s d tg v ch|m|s tg v ch|u]; [|apply Rout_refl|apply Rout_chan_drop_rx|apply Rout_refl]. destruct d; [apply Rout_refl | apply Rout_chan_drop_rx]. Qed.
+
+Lemma Rout_drop : forall fuel, (forall fs H, Rout H (drop_fs fuel fs H)) /\ (forall cid H, Rout H (drop_cmd fuel cid H)).
+Proof.
+  induction fuel as [|f [IHfs IHcmd]]; split; intros; try apply Rout_refl.
+  - unfold drop_fs; fold drop_fs; fold drop_cmd.
+    match goal with |- Rout H (fold_left ?g ?l ?H1) => eapply Rout_trans; [|apply (Rout_fold g)] end.
+    + destruct (f_leaf fs); try apply Rout_refl.
+      * destruct dead; [apply Rout_refl | apply Rout_chan_drop_rx].
+      * apply IHcmd.
+      * apply Rout_chan_drop_rx.
+      * eapply Rout_trans; apply Rout_sub_drop.
+      * eapply Rout_trans; apply Rout_sub_drop.
+    + intros fr Hh. apply Rout_chan_drop_rx.
+  - unfold drop_cmd; fold drop_fs; fold drop_cmd.
+    repeat match goal with |- Rout _ (fold_left ?g ?l ?H1) => eapply Rout_trans; [|apply (Rout_fold g)] end.
+    + apply Rout_ucmd. intros cm. right. destruct cm; split; reflexivity.
+    + intros e Hh. apply Rout_drop_req.
+    + intros t Hh. eapply Rout_trans; [apply IHfs | apply Rout_kill_flag].
+    + intros e Hh. destruct e; [|apply Rout_refl]. eapply Rout_trans; [apply IHfs | apply Rout_kill_flag].
+Qed.
+
+
+(* disposing of a cancelled task, and settling an aborted command, never add to, reorder or take from the output
+   queues of any OTHER command: each is left exactly as it was, or (a command dropped on the way) emptied *)
+Theorem finish_task_outputs_contained : forall cid s t H c',
+  c' <> cid ->
+  (c_evs (gcmd c' (finish_task cid s t H)) = c_evs (gcmd c' H) /\ c_eff (gcmd c' (finish_task cid s t H)) = c_eff (gcmd c' H)) \/
+  (c_evs (gcmd c' (finish_task cid s t H)) = [] /\ c_eff (gcmd c' (finish_task cid s t H)) = []).
+Proof.
+  intros cid s t H c' Hne. unfold finish_task. cbv zeta.
+  set (H4 := ucmd cid (slab_remove s) H).
+  set (H5 := utf (t_uid t) (fun tf => mkTF true (tf_abort tf) (tf_alive tf) []) H4).
+  set (H6 := fold_left (fun Hh wk => wake (wfuel wk) wk Hh) (tf_joinw (gtf (t_uid t) H4)) H5).
+  assert (R : Rout H4 (kill_flag (t_uid t) (drop_fs (dfuel H6) (t_fs t) H6))).
+  { eapply Rout_trans; [|apply Rout_kill_flag]. eapply Rout_trans; [|apply (proj1 (Rout_drop _))].
+    apply (Rout_trans _ H5); [unfold H5; apply Rout_utf|]. apply (Rout_fold (fun Hh wk => wake (wfuel wk) wk Hh)). intros wk Hh. apply Rout_wake. }
+  destruct (R c') as [(E1 & E2)|E]; [left | right; exact E].
+  rewrite E1, E2. unfold H4. rewrite gcmd_ucmd_other by congruence. split; reflexivity.
+Qed.
+Theorem aborted_settle_outputs_contained : forall f x H H',
+  was_aborted x H = true -> settle (S f) x H = Some H' ->
+  forall c', c' <> x ->
+  (c_evs (gcmd c' H') = c_evs (gcmd c' H) /\ c_eff (gcmd c' H') = c_eff (gcmd c' H)) \/ (c_evs (gcmd c' H') = [] /\ c_eff (gcmd c' H') = []).
+Proof.
+  intros f x H H' A E c' Hne. unfold settle in E. cbn [funs step_funs rsettle] in E. unfold settle_body in E. rewrite A in E.
+  inversion E; subst; clear E.
+  assert (R : Rout (ucmd x slab_clear H) (note B_AbortClear
+     (fold_left (fun Hh e => match e with Occ t => kill_flag (t_uid t) (drop_fs (dfuel Hh) (t_fs t) Hh) | Vac _ => Hh end)
+                (c_ent (gcmd x H)) (ucmd x slab_clear H)))).
+  { eapply Rout_trans; [|apply Rout_same; reflexivity].
+    apply (Rout_fold (fun Hh e => match e with Occ t => kill_flag (t_uid t) (drop_fs (dfuel Hh) (t_fs t) Hh) | Vac _ => Hh end)).
+    intros e Hh. destruct e; [|apply Rout_refl]. eapply Rout_trans; [apply (proj1 (Rout_drop (dfuel Hh))) | apply Rout_kill_flag]. }
+  destruct (R c') as [(E1 & E2)|E0]; [left | right; exact E0].
+  rewrite E1, E2. rewrite gcmd_ucmd_other by congruence. split; reflexivity.
+Qed.
